@@ -90,6 +90,52 @@ class C10(Prop):
         self.translators = [_lint_table]
 
 
+SCOPE_TRUST = [
+    "modelled: the whole ScopeVisitor (Scope/Events.v: the order full_moon's Visitor drives the hooks; Scope/Interp.v: scope stack, arenas, captured_references, merge, try_hoist), undefined_variable and shadowing (Lints/ScopeLints.v)",
+    "specification: Lua 5.1 scoping as an independent resolver (Scope/LuaEvents.v, Scope/Spec.v) with the known classes computed by the specification itself",
+    "the syntax tree is taken from full_moon (harness/src/astdump.rs prints it as a Gallina term); programs outside the Lua 5.1 fragment are skipped",
+    "PENDING PROOF: model-satisfies-specification outside the known classes (env_agrees) is evaluated on every case, not yet proved",
+]
+
+
+class C01(Prop):
+    id = "C01"
+    coq_targets = ["Properties/C01.vo", "Corr/C01.vo"]
+    props_file = "Properties/C01.v"
+    harness_cmd = "c01"
+    n = {"quick": 1200, "thorough": 30000}
+    search_seeds = 2
+    search_n = 1500
+    bits = {4: "undefined_variable reported on an identifier Lua binds to a local/parameter/loop variable/self, a library name, a global assigned in the outermost block, or the main chunk's `...`",
+            8: "a read of a name with no visible binding, absent from the library and never assigned is not reported exactly once"}
+    classes = {"K1": 1, "K2": 2, "K3": 4, "K4": 8, "K5": 16}
+    rule = ("grammar-directed Lua 5.1 programs over a pool of 3-6 reused names plus library roots and unknown globals: every "
+            "statement kind, nesting <= 4, multi-name locals with missing/surplus expressions, closures in initialisers and "
+            "loop headers, methods, varargs, global assignments at every depth, empty else arms; the real ScopeManager "
+            "(every reference and variable, arena order) and the three lints' diagnostics are compared with the model and "
+            "judged by the specification's zones; non-trivial = at least one variable and two references; distinct = distinct sources")
+    trusted_base = SCOPE_TRUST
+    assumptions = ["lua51 standard library roots as the 'supplied by the library' oracle (lookup itself is C06)"]
+
+
+class C02(C01):
+    id = "C02"
+    coq_targets = ["Properties/C02.vo", "Corr/C01.vo"]
+    props_file = "Properties/C02.v"
+    bits = {64: "unused_variable flags a local/parameter/loop variable that an (unaffected) expression-position occurrence uses",
+            128: "a local/parameter/loop variable never mentioned again is not flagged"}
+    classes = {"K1": 1 << 10, "K2": 2 << 10, "K3": 4 << 10, "K4": 8 << 10, "KA": 128 << 10, "K8": 256 << 10}
+
+
+class C03(C01):
+    id = "C03"
+    coq_targets = ["Properties/C03.vo", "Corr/C01.vo"]
+    props_file = "Properties/C03.v"
+    bits = {16: "a shadowing report whose secondary label is not the innermost visible same-name declaration",
+            32: "a declaration re-using the name of a visible local/parameter/loop variable is not reported"}
+    classes = {"K3": 4 << 20, "K7": 64 << 20}
+
+
 class C06(Prop):
     id = "C06"
     coq_targets = ["Properties/C06.vo", "Corr/C06.vo"]
@@ -114,4 +160,4 @@ class C06(Prop):
 from .c19 import C19  # noqa: E402
 from .c16 import C16  # noqa: E402
 
-ALL = {c.id: c for c in [C06, C08, C09, C10, C15, C16, C19]}
+ALL = {c.id: c for c in [C01, C02, C03, C06, C08, C09, C10, C15, C16, C19]}
